@@ -266,6 +266,7 @@ impl Assembler for PointAssembler {
             // fallthrough to out
 
             ; O:
+            ; add rsi, 1 // advance to the next choice
         );
         self.0.ops.commit_local().unwrap()
     }
@@ -300,6 +301,7 @@ impl Assembler for PointAssembler {
             // fallthrough to out
 
             ; O:
+            ; add rsi, 1 // advance to the next choice
         );
         self.0.ops.commit_local().unwrap()
     }
@@ -359,6 +361,7 @@ impl Assembler for PointAssembler {
             ; mov r8b, 2
             ; sub r8b, al
             ; or [rsi], r8b // write the choice flag, based on condition flags
+            ; add rsi, 1 // advance to the next choice
             ; or [rdx], 1 // write the simplify bit
             ; movaps Rx(reg(out_reg)), xmm1
         );
@@ -380,6 +383,7 @@ impl Assembler for PointAssembler {
             ; and al, r8b
             ; inc al
             ; or [rsi], al // write the choice flag, based on condition flags
+            ; add rsi, 1 // advance to the next choice
             ; or [rdx], 1 // write the simplify bit
             ; movaps Rx(reg(out_reg)), xmm1
         );
